@@ -13,3 +13,11 @@ pub use label::LabelType;
 
 mod grounded_extension_computer;
 pub(crate) use grounded_extension_computer::grounded_extension;
+
+/// Verification hooks: compiled only with `--cfg crustabri_verif` (never in a normal build).
+/// Gives an external test harness access to the connected-component computation used by the solvers.
+#[cfg(crustabri_verif)]
+pub mod verif_hooks {
+    pub use super::connected_components_computer::ConnectedComponentsComputer;
+    pub use super::connected_components_computer::ConnectedComponentsIterator;
+}
